@@ -5,7 +5,8 @@ from .. import gen
 from . import common as C
 
 LEVEL = "exploration"
-RULE = ("seeded product sampling of bound geometry x start point x landscape/optimum location x noise mode x constraint x "
+RULE = ("[inputs also in other valid spellings: 1-D arrays, lists, float32 start] " +
+        "seeded product sampling of bound geometry x start point x landscape/optimum location x noise mode x constraint x "
         "budget; every target/constraint argument, the result and every logged row is compared EXACTLY with the user's "
         "box (and the transformed box / inverse map for logged rows); in 20% of the cases optimize() is called a SECOND time on the same object "
         "with the boundary oracles still armed. A run is non-trivial if the bound mechanism engaged: "
@@ -57,7 +58,17 @@ def cases(tier, seed):
             opts["tol_mesh"] = float(rng.choice([0.25, 0.1]))
         spec = gen.make_spec(rng, D=D, geom=geom, x0mode=x0mode, land=land,
                              where=where, mode=mode, cons=cons, options=opts, max_fun_evals=int(rng.choice([30, 50, 80, 100])))
+        if i % 8 == 5:
+            spec["arg_spelling"] = ["1d", "list", "x0f32", "x0f32"][(i // 8) % 4]  # other valid spellings of the same problem
         out.append({"spec": spec, "second_run": bool(rng.random() < 0.2)})
+    # float32 start (a float32 pipeline) x a monotone target whose solution sits exactly ON a hard bound: the returned x must
+    # be inside the box as the user defined it (float64 bounds), not merely inside after rounding to single precision
+    for j in range(12 if tier == "quick" else 120):
+        rng = gen.rng_for(seed, "C01", 400000 + j)
+        spec = gen.make_spec(rng, D=int(rng.choice([1, 2, 3])), geom=str(rng.choice(["lin", "offcentre", "wide", "log"])), x0mode="in", land=str(rng.choice(["ramp", "l1", "quad"])),
+                             where="out", mode=str(rng.choice(["det", "det", "he"])), max_fun_evals=int(rng.choice([60, 90])))
+        spec["arg_spelling"] = "x0f32"
+        out.append({"spec": spec, "second_run": False})
     out += C.option_variation_slice("C01", tier, seed)
     return out
 
